@@ -261,6 +261,58 @@ func genFieldClass(r *core.Rand, kind byte, hdrs, host, cl, te string) (string, 
 	}
 }
 
+// withCloses turns a script of reads into a script of consumer CALLS: Close placed anywhere among the
+// reads (before the first, mid-body with reads going on afterwards, after EOF), twice, with a failing
+// Close of the wrapped body, or no Close at all; a body never read may still be closed. (Without a C
+// entry the consumer closes once after the last read.)
+func withCloses(r *core.Rand, reads string) string {
+	if strings.HasPrefix(reads, "N") {
+		return reads
+	}
+	var steps []string
+	if reads != "_" {
+		steps = strings.Split(reads, ";")
+	}
+	cl := func() string {
+		if r.Chance(1, 6) {
+			return "Cx"
+		}
+		return "C"
+	}
+	ins := func(at int, c ...string) {
+		steps = append(steps[:at], append(append([]string{}, c...), steps[at:]...)...)
+	}
+	mode := r.Intn(8)
+	core.Count(fmt.Sprintf("calls:close-mode-%d", mode))
+	switch mode {
+	case 0: // Close first (without any Read so far), reads go on
+		ins(0, cl())
+	case 1, 2: // Close somewhere in the middle, reads go on
+		ins(r.Intn(len(steps)+1), cl())
+	case 3: // Close twice in a row somewhere
+		ins(r.Intn(len(steps)+1), cl(), cl())
+	case 4: // several closes scattered
+		for k := r.Range(2, 4); k > 0; k-- {
+			ins(r.Intn(len(steps)+1), cl())
+		}
+	case 5: // Close in the middle and again at the end
+		ins(r.Intn(len(steps)+1), cl())
+		steps = append(steps, cl())
+	case 6: // Close at the end, then reads after Close (and after EOF)
+		steps = append(steps, cl(), fmt.Sprintf("-:e:%d", r.Intn(9)), "-:e:0")
+	default: // zero-length reads around a Close
+		at := r.Intn(len(steps) + 1)
+		z := "-:n:0"
+		for _, st := range steps[:at] {
+			if strings.Contains(st, ":e:") { // a body that was at end-of-file stays there
+				z = "-:e:0"
+			}
+		}
+		ins(at, z, cl(), z)
+	}
+	return strings.Join(steps, ";")
+}
+
 func genMsg(r *core.Rand, tier string, kind byte, id string) string {
 	api := "0"
 	if r.Chance(1, 5) {
@@ -297,6 +349,9 @@ func genMsg(r *core.Rand, tier string, kind byte, id string) string {
 		reads = genReadsGated(r)
 	} else {
 		reads = genReads(r, tier)
+	}
+	if r.Chance(1, 4) {
+		reads = withCloses(r, reads)
 	}
 	return strings.Join([]string{string(kind), core.HexS(id), api, pseudo, host, cl, te, hdrs, reads}, "/")
 }
